@@ -48,12 +48,11 @@ func VerifCloseSnapshot(a *Agent) VerifCloseDigest {
 		HasSelected: a.getSelectedPair() != nil,
 		URLs:        len(a.urls),
 	}
-	for _, l := range a.localCandidates {
-		st.Locals += len(l)
-	}
-	for _, l := range a.remoteCandidates {
-		st.Remotes += len(l)
-	}
+	// No map iteration or lookup here: if a defect lets Close return before the loop has torn the
+	// agent down, a concurrent map access would kill the harness process instead of yielding an
+	// observation. len() of a map only reads its count.
+	st.Locals = len(a.localCandidates)
+	st.Remotes = len(a.remoteCandidates)
 	a.startedCandidatesMu.Lock()
 	st.Started = len(a.startedCandidates)
 	a.startedCandidatesMu.Unlock()
